@@ -477,9 +477,13 @@ pub fn judge(good: &Program, bad: &Program, defect: &Defect, d: Dialect) -> Resu
     // precondition: the repaired twin compiles (phase 1: running out of time here is not about
     // ill-scoped programs; C14 and C01 own hangs on well-scoped input)
     crate::worker::set_phase(1);
+    let t0 = std::time::Instant::now();
     let good_ok = compile(good, d).is_ok();
+    let slow_twin = t0.elapsed().as_secs() >= 8;
     crate::worker::set_phase(2);
-    if !good_ok {
+    // a twin that takes this long leaves the injected program (about as expensive) too little of
+    // the case's time budget for a timeout to mean anything: not judged
+    if !good_ok || slow_twin {
         return Ok(false);
     }
     let bad_text = render_program(bad, Some(d));
@@ -660,6 +664,9 @@ impl Prop for C10Prop {
     }
     fn timeout_exempt_phase(&self) -> Option<u32> {
         Some(1)
+    }
+    fn exempt_phase_timeout(&self) -> Option<u64> {
+        Some(10)
     }
     fn case_timeout(&self) -> (u64, bool) {
         (40, true)
